@@ -369,21 +369,14 @@ ClearDirs(S, cs) ==
         D == Desc(S.F, loc)
         allDir(p) == \A q \in Desc(S.F, p) : S.F[q].t = "d"
     IN IF allDir(loc) THEN Do(S, R("ok", Remove(S.F, D), D))
-       ELSE LET gone == {p \in D \ {loc} : allDir(p)} IN Do(S, R("ENOTEMPTY", Remove(S.F, gone), gone))
-\* (Do keeps the touched set of a failed call; the file system of a failed call is adopted below)
-ClearDirsErr(S, cs) ==
-    LET loc == LRes(S.F, cs).loc
-        D == Desc(S.F, loc)
-        allDir(p) == \A q \in Desc(S.F, p) : S.F[q].t = "d"
-        gone == {p \in D \ {loc} : allDir(p)}
-    IN [S EXCEPT !.F = Remove(S.F, gone), !.t = S.t \cup gone, !.r = "err"]
+       ELSE LET gone == {p \in D \ {loc} : allDir(p)}            \* IsADirectoryError after a partial clean-up
+            IN [S EXCEPT !.F = Remove(S.F, gone), !.t = S.t \cup gone, !.r = "err"]
 
 \* a directory found where a blob is wanted (_transition_to_file)
 RemoveDirForFile(S, cs) ==
     LET names == ListNames(S.F, cs) IN
     IF ".git" \in names THEN (IF names = {".git"} THEN Do(S, Rmtree(S.F, cs)) ELSE Err(S))
-    ELSE LET loc == LRes(S.F, cs).loc IN
-         IF \A q \in Desc(S.F, loc) : S.F[q].t = "d" THEN ClearDirs(S, cs) ELSE ClearDirsErr(S, cs)
+    ELSE ClearDirs(S, cs)
 
 \* a directory found where a blob was tracked (_transition_to_absent): removed if empty, else left
 RemoveDirIfEmpty(S, cs) ==
